@@ -64,6 +64,12 @@ Proof.
   - inversion H. apply grows_refl.
 Qed.
 
+Lemma bindv_inv : forall x f h' r, bindv x f = (h', r) ->
+  (exists h1 v, x = (h1, RVal v) /\ f v h1 = (h', r)) \/ x = (h', r).
+Proof.
+  unfold bindv. intros [h1 r1] f h' r H. destruct r1; eauto.
+Qed.
+
 Section Exec.
   Variable vt : variant.
   Variable W : world.
@@ -141,10 +147,11 @@ Section Exec.
     destruct data as [i|]; [|inversion H; subst; auto].
     destruct (store_data h1 (VR s)) as [d|] eqn:Ed; [|inversion H; subst; auto].
     destruct (truthy h1 (env_get e i)); [|inversion H; subst; auto].
-    unfold bindv in H. destruct (store_add_top vt W d (env_get e i) h1) as [h2 r2] eqn:Ea.
     destruct (store_data_table _ _ _ Ed) as (m & Em).
-    assert (K2 : kept h1 h2) by (eapply same_but_kept; [eapply store_add_top_same_but; eauto | eauto]).
-    eapply kept_trans; [exact K1|]. destruct r2; inversion H; subst; auto.
+    eapply kept_trans; [exact K1|].
+    apply bindv_inv in H. destruct H as [(h2 & v & Ea & H)|Ea].
+    - inversion H; subst. eapply same_but_kept; [eapply store_add_top_same_but; eauto | eauto].
+    - eapply same_but_kept; [eapply store_add_top_same_but; eauto | eauto].
   Qed.
 
   Lemma ex_store_add : forall s a e h h' r, exec vt W (OStoreAdd s a) e h = (h', r) -> kept h h'.
